@@ -244,10 +244,12 @@ def storedBytes : Size → Value → Option (List Nat)
 
 /-! ## Typed bindings: `coerce_from_io`, `coerce_to_io` -/
 
-/-- The elementary `TypeId`s the coercions know; anything else is `other`. -/
+/-- The 17 elementary `TypeId`s the coercions know; `time` stands for the 32-bit date and time types
+(TIME, DATE, TOD, DT), `ltime` for their 64-bit variants — the compiler accepts `AT` on them, the
+coercions do not know them — and `other` for any other type. -/
 inductive Ty
   | bool | sint | usint | byte | char | int | uint | word | wchar
-  | dint | udint | dword | real | lint | ulint | lword | lreal | other
+  | dint | udint | dword | real | lint | ulint | lword | lreal | time | ltime | other
 deriving DecidableEq, Repr, Inhabited
 
 /-- `expected_size_for_type`. -/
@@ -257,7 +259,7 @@ def expectedSize : Ty → Option Size
   | .int | .uint | .word | .wchar => some .word
   | .dint | .udint | .dword | .real => some .dword
   | .lint | .ulint | .lword | .lreal => some .lword
-  | .other => none
+  | .time | .ltime | .other => none
 
 /-- `x as iN` for an `N`-bit unsigned `x` (two's complement reinterpretation). -/
 def asSigned (bits : Nat) (x : Nat) : Int :=
@@ -365,7 +367,7 @@ def coerceToIo (v : Value) (t : Ty) (s : Size) : Except Err Value :=
     | .lreal => match v with
       | .lreal x => .ok (.lword x)
       | _ => if isNumeric v then .error .unmodelled else .error .typeMismatch
-    | .other => .error .typeMismatch
+    | .time | .ltime | .other => .error .typeMismatch
 
 /-- `v` is a value of the elementary type `t` (the variant the interpreter stores for a variable
 declared with that type). -/
@@ -474,6 +476,78 @@ def Addr.noClash (a' a : Addr) : Bool :=
 /-- A binding does not interfere with address `a` during `write_outputs`: it is not visited, or its
 address does not clash. -/
 def Binding.noClash (b : Binding) (a : Addr) : Bool := !b.isOut || b.addr.noClash a
+
+/-! ## From an `AT` declaration to bindings: `collect_io_bindings`, `offset_address` (`harness/io.rs`) -/
+
+/-- The declared types covered: an elementary type, a one-dimensional array of an elementary type,
+a structure of elementary fields without relative field addresses. -/
+inductive Shape
+  | elem (t : Ty)
+  | array (len : Nat) (t : Ty)
+  | struct (fields : List Ty)
+deriving DecidableEq, Repr, Inhabited
+
+/-- `type_size_bytes` of an elementary type (`bit_size().div_ceil(8)`: a BOOL occupies one byte). -/
+def Ty.bytes : Ty → Nat
+  | .bool | .sint | .usint | .byte | .char => 1
+  | .int | .uint | .word | .wchar => 2
+  | .dint | .udint | .dword | .real => 4
+  | .lint | .ulint | .lword | .lreal => 8
+  | .time => 4
+  | .ltime => 8
+  | .other => 0
+
+/-- `io_size_for_type` of a leaf type (`None`: "unsupported type for I/O binding", a compile error). -/
+def Ty.ioSize? : Ty → Option Size
+  | .bool => some .bit
+  | .sint | .usint | .byte | .char => some .byte
+  | .int | .uint | .word | .wchar => some .word
+  | .dint | .udint | .dword | .real | .time => some .dword
+  | .lint | .ulint | .lword | .lreal | .ltime => some .lword
+  | .other => none
+
+/-- `offset_address` for a flat base address: the size comes from the leaf's type, not from the
+letter of the declaration; a bit leaf keeps the base bit index (plus whole bytes), any other leaf
+drops it. -/
+def offsetAddress (base : Addr) (off : Nat) (sz : Size) : Addr :=
+  if sz = .bit then
+    let total := base.bit + off * 8
+    { area := base.area, size := sz, byte := base.byte + total / 8, bit := total % 8,
+      path := [base.byte + total / 8], wildcard := false }
+  else
+    { area := base.area, size := sz, byte := base.byte + off, bit := 0, path := [base.byte + off],
+      wildcard := false }
+
+/-- Byte offsets of the fields of a structure (`current_offset = field_end`). -/
+def fieldOffsets : List Ty → Nat → List (Nat × Ty)
+  | [], _ => []
+  | t :: ts, off => (off, t) :: fieldOffsets ts (off + t.bytes)
+
+/-- `collect_io_bindings`: the leaves of a declared type with their byte offsets, in order. -/
+def Shape.leaves : Shape → List (Nat × Ty)
+  | .elem t => [(0, t)]
+  | .array len t => (List.range len).map fun k => (k * t.bytes, t)
+  | .struct fs => fieldOffsets fs 0
+
+/-- The leaf types of a declared type, in order. -/
+def Shape.tys : Shape → List Ty
+  | .elem t => [t]
+  | .array len t => List.replicate len t
+  | .struct fs => fs
+
+/-- One typed reference binding per leaf; leaf number `k` is variable `first + k`; a leaf type
+without an I/O size is a compile error. -/
+def expandLeaves (first : Nat) (base : Addr) : List (Nat × Ty) → Nat → Option (List Binding)
+  | [], _ => some []
+  | (off, t) :: rest, k =>
+    match t.ioSize?, expandLeaves first base rest (k + 1) with
+    | some sz, some bs =>
+      some ({ target := .ref (first + k), addr := offsetAddress base off sz, ty := some t } :: bs)
+    | _, _ => none
+
+/-- `bind_value_ref_to_address`: the bindings of `x AT base : shape`. -/
+def expandAt (first : Nat) (base : Addr) (sh : Shape) : Option (List Binding) :=
+  expandLeaves first base sh.leaves 0
 
 /-! ## The scan cycle -/
 
